@@ -71,7 +71,7 @@ let () = iter_lines (fun line ->
       | Some k when k.k_bad -> print_endline "err"
       | Some k ->
         let b = Buffer.create 1024 in
-        let ms = if mode = 1 || mode >= 3 || (mode = 2 && nc > 1) then 1 else 0 in
+        let ms = if mode = 1 || mode >= 3 || (mode = 2 && nc > 1) || bscan > 0 then 1 else 0 in
         let sm = if smoothing_active (zi mode) (zi bscan) then 1 else 0 in
         let band = ref 0 in
         Buffer.add_string b (Printf.sprintf "ok dims %d %d M=%d v=%d h=%d ctx=%d mrg=%d ms=%d" (iz k.k_ow) (iz k.k_oh) (iz k.k_M)
